@@ -27,7 +27,7 @@ type c16Stream struct {
 	nreq   int
 	dead   chan struct{}
 	once   sync.Once
-	twice  int // requests naming one service in both lists
+	twice  int           // requests naming one service in both lists
 	gate   chan struct{} // when set, the first Send waits for it (a slow resubscription)
 	gated  chan struct{} // closed when that Send has begun to wait
 	cancel bool          // the stream ends with a CANCELLED status instead of a plain error
